@@ -413,6 +413,12 @@ def fixed_shapes():
     for n, sup in [("n0", []), ("n1", ["n0"]), ("n2", ["n0", "n1"])]:
         e = Entity(n, sup); e.attrs = [Attr("a_" + n, "e", "INTEGER")]; s.entities.append(e)
     out.append(s)
+    # three supertypes, the first an ancestor of the last, an unrelated attribute-bearing one in between: the constructor's
+    # parameter order must stay the Part 21 order whatever order the base classes are emitted in (seeded C18-f1)
+    s = Schema("ancfirst3")
+    for n, sup in [("m0", []), ("m1", []), ("m2", ["m0"]), ("m3", ["m0", "m1", "m2"]), ("m4", ["m1", "m0", "m2"])]:
+        e = Entity(n, sup); e.attrs = [Attr("a_" + n, "e", "INTEGER")]; s.entities.append(e)
+    out.append(s)
     # attribute names that look like the generator's own parameter names / the runtime's names (seeded C18-e2)
     s = Schema("naming")
     for n, sup, at in [("a", [], ["x", "inherited", "a__b"]), ("b", ["a"], ["inherited_from", "inherited1", "scope", "count"]),
